@@ -2,7 +2,7 @@
    Statements only; proofs are in Print/ValueProofs.v, Print/HeapProofs.v, Print/RoundTrip.v. *)
 From HyV Require Import Print.Syntax Print.Names Print.Reader Print.ModelRepr Print.ValueRepr Print.TableOracle
      Print.ReaderFacts Print.StringFacts Print.AtomFacts Print.RoundTrip Print.ValueProofs Print.HeapProofs
-     Print.Ser Print.GenChecks.
+     Print.Ser Print.GenChecks Print.Witness27.
 
 (* The property as stated, for the model: every value of the documented types is printed as a
    text that the reader takes as one form, and that form evaluates to the value. *)
@@ -44,34 +44,28 @@ Print Assumptions C27_graph_printer_is_tree_printer.
 Theorem C27_value_printer_is_model_printer :
   forall (W : oracle) (key_eq : value -> value -> bool), num_facts W -> names_facts W ->
   forall v, wfv key_eq v -> vrepr W v = mrepr W (vmodel v) /\ ok W (vmodel v).
-Proof. intros W key_eq NF NN v H. split; [exact (vrepr_vmodel W key_eq v H)|exact (vmodel_ok W key_eq NN v H)]. Qed.
+Proof. exact value_printer_is_model_printer. Qed.
 Print Assumptions C27_value_printer_is_model_printer.
 
-(* Refutations of the full statement, replayed on the implementation by props/c27.py. *)
-Definition W_plain : oracle := table_oracle [] [] [] [] [].
-
-(* defaultdict(list): printed as (defaultdict <class 'list'> {}), which does not evaluate *)
+(* Refutations of the full statement (witnesses computed in Print/Witness27.v, replayed on the
+   implementation by props/c27.py).  W_plain is an oracle under which no token is a number; the two
+   printed texts contain no numeric token.
+   defaultdict(list) is printed as (defaultdict <class 'list'> {}), which does not evaluate;
+   slice(:a, None) is printed as (slice :a None), where the keyword is taken as a keyword argument. *)
 Theorem C27_defaultdict_refuted :
-  exists v m, v = VNode (VkDefaultdict (Some k_list)) []
-              /\ read_one W_plain (vrepr W_plain v) = ROne m [] /\ eval veqb m = None.
-Proof. eexists _, _. split; [reflexivity|]. split; vm_compute; reflexivity. Qed.
+  exists m, read_one W_plain (vrepr W_plain (VNode (VkDefaultdict (Some k_list)) [])) = ROne m []
+            /\ eval veqb m = None.
+Proof. exact defaultdict_refuted. Qed.
 Print Assumptions C27_defaultdict_refuted.
 
-(* slice(:a, None): printed as (slice :a None), where the keyword is taken as a keyword argument *)
 Theorem C27_slice_keyword_refuted :
-  exists v m, v = VNode VkSlice [VKw [97]; VNone; VNone]
-              /\ read_one W_plain (vrepr W_plain v) = ROne m [] /\ eval veqb m = None.
-Proof. eexists _, _. split; [reflexivity|]. split; vm_compute; reflexivity. Qed.
+  exists m, read_one W_plain (vrepr W_plain (VNode VkSlice [VKw [97]; VNone; VNone])) = ROne m []
+            /\ eval veqb m = None.
+Proof. exact slice_keyword_refuted. Qed.
 Print Assumptions C27_slice_keyword_refuted.
 
 (* a non-trivial value that meets the hypotheses of the round trip *)
-Example C27_hypotheses_met : forall key_eq,
-  key_eq (VInt 1) (VStr [97]) = false ->
+Example C27_hypotheses_met : forall key_eq, key_eq (VInt 1) (VStr [97]) = false ->
   wfv key_eq (VNode VkDict [VInt 1; VNode VkList [VStr [97; 34; 39]; VFloat FNaN];
-                            VStr [97]; VNode VkFrozenset [VFraction (-1) 2; VRange 0 5 1]]).
-Proof.
-  intros key_eq H. apply WfNode.
-  - split; [reflexivity|]. cbn. repeat split; try constructor; try assumption.
-  - repeat constructor; cbn; try lia; try reflexivity; try discriminate.
-    all: try (repeat constructor; cbn; lia).
-Qed.
+                            VStr [97]; VNode VkFrozenset [VFraction (-1) 2]]).
+Proof. exact example_wfv. Qed.
